@@ -5,7 +5,10 @@
 
   Every f-string template of output.py is written here LINE BY LINE and glued with `joinNl`
   (= `"\n".join`): a triple-quoted f-string is the "\n"-join of its lines, its first and last lines
-  being empty (the template starts and ends with a newline).  A hole `{_indent(x)}` standing after
+  being empty (the template starts and ends with a newline).  Within a line the literal pieces of a tag
+  are produced by `openTag` / `closeTag` / `emptyTag` (`<Key keyIdentifier="{…}" keyTag="{…}">` is
+  `openTag "Key" [("keyIdentifier", …), ("keyTag", …)]`); that the resulting text is the implementation's,
+  character for character, is what harness/corr_C11.py compares on every case.  A hole `{_indent(x)}` standing after
   four blanks is the "line" `sp4 ++ indent x` (which may itself contain newlines).
 
   `indent` is `_indent` exactly: split on "\n", drop the EMPTY pieces (a whitespace-only line is
@@ -19,6 +22,7 @@
 -/
 import Kskm.Duration
 import Kskm.Time
+import Kskm.Base64
 namespace Kskm
 
 /-! ### Python string helpers -/
@@ -58,11 +62,34 @@ def indent (data : List Char) : List Char :=
 
 def natStr (n : Nat) : List Char := Nat.toDigits 10 n
 
+/-! ### tags -/
+
+/-- ` name="value"` for every attribute -/
+def renderAttrs : List (String × String) → List Char
+  | [] => []
+  | (n, v) :: r => ' ' :: n.toList ++ '=' :: '"' :: v.toList ++ '"' :: renderAttrs r
+
+/-- `<name a="…" b="…">` -/
+def openTag (name : String) (attrs : List (String × String)) : List Char :=
+  '<' :: name.toList ++ renderAttrs attrs ++ ['>']
+
+/-- `</name>` -/
+def closeTag (name : String) : List Char := '<' :: '/' :: name.toList ++ ['>']
+
+/-- `<name a="…"/>` -/
+def emptyTag (name : String) (attrs : List (String × String)) : List Char :=
+  '<' :: name.toList ++ renderAttrs attrs ++ ['/', '>']
+
+def str (cs : List Char) : String := String.ofList cs
+
+/-- a template line indented by four blanks -/
+def ind (l : List Char) : List Char := sp4 ++ l
+
 /-! ### the templates -/
 
 /-- `<name>text</name>` preceded by four blanks: one line of a template -/
 def leafLine (name : String) (text : List Char) : List Char :=
-  sp4 ++ '<' :: name.toList ++ '>' :: text ++ '<' :: '/' :: name.toList ++ ['>']
+  ind (openTag name [] ++ text ++ closeTag name)
 
 /-- one pass of the loop of `_signature_algorithms_to_xml` -/
 def algXml (a : AlgPolicy) : Res (List Char) :=
@@ -70,9 +97,9 @@ def algXml (a : AlgPolicy) : Res (List Char) :=
   | .rsa, some e =>
     pure (joinNl [
       [],
-      "<SignatureAlgorithm algorithm=\"".toList ++ natStr a.algorithm ++ "\">".toList,
-      "    <RSA size=\"".toList ++ pyIntStr a.bits ++ "\" exponent=\"".toList ++ pyIntStr e ++ "\"/>".toList,
-      "</SignatureAlgorithm>".toList,
+      openTag "SignatureAlgorithm" [("algorithm", str (natStr a.algorithm))],
+      ind (emptyTag "RSA" [("size", str (pyIntStr a.bits)), ("exponent", str (pyIntStr e))]),
+      closeTag "SignatureAlgorithm",
       []])
   | .rsa, none => unsupported            -- an `AlgorithmPolicyRSA` always has an exponent
   | _, _ => err .notImplemented          -- "Can only output RSA at the moment"
@@ -87,7 +114,7 @@ def policy2Xml (name : String) (p : SigPolicy) : Res (List Char) := do
   let algs ← algsXml p.algorithms
   pure (joinNl [
     [],
-    '<' :: name.toList ++ ['>'],
+    openTag name [],
     [],                                   -- the `\n` escape followed by the line break
     leafLine "PublishSafety" (formatDurationChars p.publishSafety),
     leafLine "RetireSafety" (formatDurationChars p.retireSafety),
@@ -96,7 +123,7 @@ def policy2Xml (name : String) (p : SigPolicy) : Res (List Char) := do
     leafLine "MaxValidityOverlap" (formatDurationChars p.maxValidityOverlap),
     leafLine "MinValidityOverlap" (formatDurationChars p.minValidityOverlap),
     sp4 ++ indent algs,
-    '<' :: '/' :: name.toList ++ ['>'],
+    closeTag name,
     []])
 
 /-- `_skr_response_policy_to_xml` -/
@@ -105,10 +132,10 @@ def policyXml (r : Response) : Res (List Char) := do
   let zsk ← policy2Xml "ZSK" r.zskPolicy
   pure (joinNl [
     [],
-    "<ResponsePolicy>".toList,
+    openTag "ResponsePolicy" [],
     sp4 ++ indent ksk,
     sp4 ++ indent zsk,
-    "</ResponsePolicy>".toList,
+    closeTag "ResponsePolicy",
     []])
 
 /-- first and last instant a Python `datetime` can hold (years 1 … 9999), in µs -/
@@ -123,14 +150,13 @@ def formatDatetimeRes (t : Int) : Res (List Char) :=
 def keyXml (k : Key) : List Char :=
   joinNl [
     [],
-    "<Key keyIdentifier=\"".toList ++ k.keyIdentifier.toList ++ "\" keyTag=\"".toList ++ pyIntStr k.keyTag
-      ++ "\">".toList,
+    openTag "Key" [("keyIdentifier", k.keyIdentifier), ("keyTag", str (pyIntStr k.keyTag))],
     leafLine "TTL" (pyIntStr k.ttl),
     leafLine "Flags" (pyIntStr k.flags),
     leafLine "Protocol" (pyIntStr k.protocol),
     leafLine "Algorithm" (natStr k.algorithm),
     leafLine "PublicKey" k.publicKey.toList,
-    "</Key>".toList,
+    closeTag "Key",
     []]
 
 /-- `sorted(bundle.keys, key=lambda x: x.key_tag)` — stable -/
@@ -149,7 +175,7 @@ def sigXml (s : Signature) : Res (List Char) := do
   let inc ← formatDatetimeRes s.inception
   pure (joinNl [
     [],
-    "<Signature keyIdentifier=\"".toList ++ s.keyIdentifier.toList ++ "\">".toList,
+    openTag "Signature" [("keyIdentifier", s.keyIdentifier)],
     leafLine "TTL" (pyIntStr s.ttl),
     leafLine "TypeCovered" tc,
     leafLine "Algorithm" (natStr s.algorithm),
@@ -160,7 +186,7 @@ def sigXml (s : Signature) : Res (List Char) := do
     leafLine "KeyTag" (pyIntStr s.keyTag),
     leafLine "SignersName" s.signersName.toList,
     leafLine "SignatureData" s.signatureData.toList,
-    "</Signature>".toList,
+    closeTag "Signature",
     []])
 
 /-- `_skr_signatures_to_xml` -/
@@ -175,12 +201,12 @@ def bundleXml (b : Bundle) : Res (List Char) := do
   let sigs ← sigsXml b
   pure (joinNl [
     [],
-    "<ResponseBundle id=\"".toList ++ b.id.toList ++ "\">".toList,
+    openTag "ResponseBundle" [("id", b.id)],
     leafLine "Inception" inc,
     leafLine "Expiration" exp,
     sp4 ++ indent (keysXml b),
     sp4 ++ indent sigs,
-    "</ResponseBundle>".toList,
+    closeTag "ResponseBundle",
     []])
 
 /-- `_skr_response_bundles_to_xml` -/
@@ -194,24 +220,35 @@ def responseXml (r : Response) : Res (List Char) := do
   let bs ← bundlesXml r
   pure (joinNl [
     [],
-    "<Response>".toList,
+    openTag "Response" [],
     sp4 ++ indent pol,
     sp4 ++ indent bs,
-    "</Response>".toList,
+    closeTag "Response",
     []])
 
 def xmlDecl : List Char := "<?xml version=\"1.0\" encoding=\"UTF-8\"?>".toList
 
+/-- CPython refuses to convert an `int` of more than 4300 decimal digits to `str` (ValueError) -/
+def printable (i : Int) : Bool := decide (i.natAbs < 10 ^ maxStrDigits)
+
+/-- every integer `skr_to_xml` formats -/
+def printedInts (r : Response) : List Int :=
+  r.serial :: ((r.kskPolicy.algorithms ++ r.zskPolicy.algorithms).flatMap
+      (fun a => [(a.algorithm : Int), a.bits, a.exponent.getD 0]))
+    ++ r.bundles.flatMap (fun b =>
+      b.keys.flatMap (fun k => [k.keyTag, k.ttl, k.flags, k.protocol, (k.algorithm : Int)])
+        ++ b.signatures.flatMap (fun s => [s.ttl, (s.algorithm : Int), s.labels, s.originalTtl, s.keyTag]))
+
 /-- `skr_to_xml` on characters -/
 def skrToXmlChars (r : Response) : Res (List Char) := do
   if r.timestamp.isSome then err .notImplemented      -- "SKR timestamp is not supported"
+  if !(printedInts r).all printable then err .value   -- int → str above 4300 digits (any error class agrees)
   let resp ← responseXml r
   pure (joinNl [
     xmlDecl,
-    "<KSR id=\"".toList ++ r.id.toList ++ "\" domain=\"".toList ++ r.domain.toList ++ "\" serial=\"".toList
-      ++ pyIntStr r.serial ++ "\">".toList,
+    openTag "KSR" [("id", r.id), ("domain", r.domain), ("serial", str (pyIntStr r.serial))],
     sp4 ++ indent resp,
-    "</KSR>".toList,
+    closeTag "KSR",
     []])
 
 /-- `skr_to_xml(response)` -/
@@ -239,22 +276,12 @@ def XTree.attrs : XTree → List (String × String)
   | .leaf _ a _ => a
   | .empty _ a => a
 
-/-- ` name="value"` for every attribute -/
-def renderAttrs : List (String × String) → List Char
-  | [] => []
-  | (n, v) :: r => ' ' :: n.toList ++ '=' :: '"' :: v.toList ++ '"' :: renderAttrs r
-
-def openTag (name : String) (attrs : List (String × String)) : List Char :=
-  '<' :: name.toList ++ renderAttrs attrs ++ ['>']
-
-def closeTag (name : String) : List Char := '<' :: '/' :: name.toList ++ ['>']
-
 mutual
 /-- the lines of an element, children indented by four blanks per level -/
 def renderLines : XTree → List (List Char)
-  | .node n a cs => openTag n a :: (renderLinesList cs).map (fun l => sp4 ++ l) ++ [closeTag n]
+  | .node n a cs => openTag n a :: (renderLinesList cs).map ind ++ [closeTag n]
   | .leaf n a t => [openTag n a ++ t.toList ++ closeTag n]
-  | .empty n a => ['<' :: n.toList ++ renderAttrs a ++ ['/', '>']]
+  | .empty n a => [emptyTag n a]
 def renderLinesList : List XTree → List (List Char)
   | [] => []
   | t :: ts => renderLines t ++ renderLinesList ts
@@ -262,8 +289,6 @@ end
 
 /-- the whole file: XML declaration, the element, a final newline -/
 def renderDoc (t : XTree) : List Char := joinNl (xmlDecl :: renderLines t ++ [[]])
-
-def str (cs : List Char) : String := String.ofList cs
 
 def algTree (a : AlgPolicy) : XTree :=
   .node "SignatureAlgorithm" [("algorithm", str (natStr a.algorithm))]
@@ -312,5 +337,68 @@ def treeOf (r : Response) : XTree :=
     .node "Response" [] (
       .node "ResponsePolicy" [] [policyTree "KSK" r.kskPolicy, policyTree "ZSK" r.zskPolicy]
         :: r.bundles.map bundleTree)]
+
+/-! ### the writer's domain
+
+  What the signer emits from a plain KSR (DESIGN §4-C11, harness/corr_C11.py `in_domain`): the same
+  predicate, evaluated by the driver on every generated response and compared with the harness's. -/
+
+/-- a character that a plain XML document carries verbatim and the repository's reader returns
+    unchanged: no markup / quote / entity character, no control character -/
+def plainChar (c : Char) : Bool :=
+  c != '"' && c != '<' && c != '>' && c != '&' && decide (32 ≤ c.toNat) && !(decide (127 ≤ c.toNat) && decide (c.toNat ≤ 159))
+    && c.toNat != 65534 && c.toNat != 65535
+
+/-- an attribute value: plain and not empty -/
+def attrTextOk (s : String) : Bool := !s.toList.isEmpty && s.toList.all plainChar
+
+/-- an element text: plain and stripped (`s == s.strip()`) -/
+def elemTextOk (s : String) : Bool :=
+  s.toList.all plainChar && !(s.toList.head?.any pyIsSpace) && !(s.toList.getLast?.any pyIsSpace)
+
+/-- a whole-second duration between 0 s and 400 d -/
+def durationOk (d : Int) : Bool := decide (0 ≤ d) && decide (d % 1000000 = 0) && decide (d ≤ 400 * usPerDay)
+
+/-- a whole-second instant of the years 1000 … 9999 -/
+def instantOk (t : Int) : Bool :=
+  decide (t % 1000000 = 0) && decide (minInstant ≤ t) && decide (t ≤ maxInstant) && decide (1000 ≤ yearOf t)
+    && decide (yearOf t ≤ 9999)
+
+def algOk (a : AlgPolicy) : Bool :=
+  a.kind == .rsa && a.exponent.isSome && (a.algorithm == 5 || a.algorithm == 8 || a.algorithm == 10)
+    && decide (0 ≤ a.bits) && decide (0 ≤ a.exponent.getD 0) && printable a.bits && printable (a.exponent.getD 0)
+
+def policyOk (p : SigPolicy) : Bool :=
+  durationOk p.publishSafety && durationOk p.retireSafety && durationOk p.maxSignatureValidity
+    && durationOk p.minSignatureValidity && durationOk p.maxValidityOverlap && durationOk p.minValidityOverlap
+    && !p.algorithms.isEmpty && p.algorithms.all algOk
+
+def keyOk (k : Key) : Bool :=
+  attrTextOk k.keyIdentifier && elemTextOk k.publicKey && !k.publicKey.toList.isEmpty
+    && (Base64.decode k.publicKey).isSome          -- canonical base64 text (xsd:base64Binary)
+    && decide (0 ≤ k.keyTag) && decide (k.keyTag ≤ 65535) && decide (0 ≤ k.ttl) && decide (0 ≤ k.flags)
+    && decide (k.flags ≤ 65535) && decide (k.protocol = 3) && decide (k.algorithm ≤ 255) && printable k.ttl
+
+def sigOk (s : Signature) : Bool :=
+  attrTextOk s.keyIdentifier && s.typeCovered == 48 && instantOk s.expiration && instantOk s.inception
+    && elemTextOk s.signersName && !s.signersName.toList.isEmpty
+    && elemTextOk s.signatureData && !s.signatureData.toList.isEmpty && (Base64.decode s.signatureData).isSome
+    && decide (0 ≤ s.keyTag) && decide (s.keyTag ≤ 65535) && decide (0 ≤ s.ttl) && decide (0 ≤ s.originalTtl)
+    && decide (0 ≤ s.labels) && decide (s.labels ≤ 255) && decide (s.algorithm ≤ 255)
+    && printable s.ttl && printable s.originalTtl
+
+def bundleOk (b : Bundle) : Bool :=
+  attrTextOk b.id && b.signers.isNone && instantOk b.inception && instantOk b.expiration
+    && !b.keys.isEmpty && b.keys.all keyOk && !b.signatures.isEmpty && b.signatures.all sigOk
+
+def writerDomain (r : Response) : Bool :=
+  r.timestamp.isNone && attrTextOk r.id && attrTextOk r.domain && decide (0 ≤ r.serial)
+    && printable r.serial
+    && policyOk r.kskPolicy && policyOk r.zskPolicy && !r.bundles.isEmpty && r.bundles.all bundleOk
+
+/-- the decidable domain of `skr_to_xml` that C11 speaks of -/
+def WriterDomain (r : Response) : Prop := writerDomain r = true
+
+instance (r : Response) : Decidable (WriterDomain r) := by unfold WriterDomain; infer_instance
 
 end Kskm
